@@ -20,13 +20,17 @@ func verifTimerMap(n int, tags gostatsd.Tags) *gostatsd.MetricMap {
 }
 
 // VerifC04_AggPct: one timer with n values, one integer percentile in [-100,100], symbolic
-// sub-metric mask; history ReceiveMap; Flush; Reset; Flush (persisted empty series).
+// sub-metric mask (count, upper, lower, and mean/sum/sum_squares together); history ReceiveMap; Flush; Reset; Flush (persisted empty series).
 func verifC04AggPct(n int) {
 	p := nondetIntIn(-100, 100)
 	var dis gostatsd.TimerSubtypes
 	dis.CountPct = nondetBool()
 	dis.UpperPct = nondetBool()
 	dis.LowerPct = nondetBool()
+	// the remaining three go together (their code paths are the same straight-line reads of the
+	// running sums): 16 masks instead of 64
+	dis.MeanPct = nondetBool()
+	dis.SumPct, dis.SumSquaresPct = dis.MeanPct, dis.MeanPct
 	a := NewMetricAggregator([]float64{float64(p)}, 0, 0, 0, 0, dis, 0)
 	a.now = func() time.Time { return time.Unix(100, 0) }
 	a.ReceiveMap(verifTimerMap(n, nil))
